@@ -376,11 +376,6 @@ Qed.
 
 End CamelRes.
 
-Lemma tname_pres a b o n : vpres a b -> tname a o = Some n -> tname b o = Some n.
-Proof.
-  intros P. unfold tname. destruct (mget a o) as [v|] eqn:Hv; [|discriminate]. rewrite (proj2 P _ _ Hv). auto.
-Qed.
-
 (* -------------------------------- the camel-casing visitor over a registry *)
 Section CamelShape.
 Variable c : str -> str.
@@ -406,13 +401,13 @@ Proof.
       destruct (Hd n0 o0 (or_introl eq_refl) Hb0) as (Hn0 & sh0 & Hs0 & Ht0).
       destruct (camel_type_P c tm _ _ _ _ _ Hi Ht0 Hv) as (I1 & R1 & y1 & -> & Hy1 & Hny1).
       assert (Hd1 : forall n o, In (n, o) l -> is_builtin o = false -> tname m1 o = Some n /\ exists sh, Sh n sh /\ TP tm m1 o sh).
-      { intros n o Hin Hb. destruct (Hd' n o Hin Hb) as (A & sh & B & C). split; [eapply tname_pres; eauto|].
+      { intros n o Hin Hb. destruct (Hd' n o Hin Hb) as (A & sh & B & C). split; [eapply tname_vpres; eauto|].
         exists sh. split; [assumption|eapply TP_pres; eauto]. }
       destruct (IH _ _ _ I1 Hd1 Hl) as (I2 & R2 & C2 & E2).
       split; [assumption|]. split; [eapply pres_trans; eauto|]. split.
       * intros n y Hin. destruct (ooid_eqb (Some y1) (Some o0)) eqn:Heq; [apply C2; assumption|].
         destruct Hin as [He|Hin]; [|apply C2; assumption]. inversion He; subst.
-        split; [eapply tname_pres; [exact R2|]; rewrite Hny1; exact Hn0|].
+        split; [eapply tname_vpres; [exact R2|]; rewrite Hny1; exact Hn0|].
         exists sh0. split; [assumption|eapply TP_pres; eauto].
       * intros n r Hin. destruct (ooid_eqb (Some y1) (Some o0)) eqn:Heq; [eapply E2; eauto|].
         destruct Hin as [He|Hin]; [inversion He; subst; discriminate|eapply E2; eauto].
@@ -446,10 +441,10 @@ Proof.
   destruct (replace_types m2 tu (s_types s) false) as [[tm1 b]| | |] eqn:Hrt; simpl in H; try discriminate.
   destruct (replace_dirs du (s_dirs s)) as [dm| | |] eqn:Hrd2; simpl in H; try discriminate.
   assert (Hwf2 : wf_reg m2 (s_types s)).
-  { split; [assumption|]. intros n o Hin. eapply tname_pres; [exact R12|auto]. }
+  { split; [assumption|]. intros n o Hin. eapply tname_vpres; [exact R12|auto]. }
   assert (Hwf' : wf_reg m2 tm1).
   { eapply replace_types_wf; [exact Hwf2| |exact Hrt]. intros n y Hin.
-    eapply tname_pres; [exact R2|]. exact (proj1 (Du n y Hin)). }
+    eapply tname_vpres; [exact R2|]. exact (proj1 (Du n y Hin)). }
   assert (Hkeys : forall k, alookup k (s_types s) <> None -> alookup k tm1 <> None).
   { intros k Hk. eapply replace_types_keeps; [exact Dsome|exact Hk|exact Hrt]. }
   assert (Hrg : forall n o, In (n, o) tm1 -> is_builtin o = false -> exists sh, Sh n sh /\ TP tm1 m2 o sh).
@@ -458,7 +453,7 @@ Proof.
       eapply TP_keys; [exact Hkeys|]. eapply TP_pres; [exact R2|exact B].
     - destruct (Hsh n o Ho Hbo) as (sh & A & B). exists sh. split; [assumption|].
       eapply TP_keys; [exact Hkeys|]. eapply TP_pres; [exact R12|exact B]. }
-  assert (Hnm2 : forall o n, tname m o = Some n -> tname m2 o = Some n) by (intros o n; apply tname_pres; exact R12).
+  assert (Hnm2 : forall o n, tname m o = Some n -> tname m2 o = Some n) by (intros o n; apply tname_vpres; exact R12).
   destruct b.
   - match type of H with obind (heal_from fuel m2 ?s1) _ = _ =>
       destruct (heal_from fuel m2 s1) as [[m3 s3]| | |] eqn:Hrec; simpl in H; try discriminate;
@@ -498,17 +493,6 @@ Proof.
     rewrite map_length. symmetry. apply (F2_length _ _ _ Hm).
   - apply (Forall_F2len (resm tm m1)); [exact Hr|]. rewrite map_length. symmetry. apply (F2_length _ _ _ Hm).
 Qed.
-
-(* ------------------------------------------------------ one-for-one descent *)
-(* the type object [o] descends from the source's type [t]: same attributes,
-   and its members are those of [t], one for one and in order, each with the
-   (renamed) attributes of its source and with the source's arguments, one
-   for one and in order *)
-Definition tfull (src : oid -> option obj) (g : str -> str) (M : mem) (n : str) (o t : oid) : Prop :=
-  exists k d ms ifs r ds ms' ifs',
-    src t = Some (OType n k d ms ifs r ds) /\ mget M o = Some (OType n k d ms' ifs' r ds) /\
-    Forall2 (fun s y => desc src g M y s /\
-                        Forall2 (fun sa a => desc src g M a sa) (sargs src s) (oargs M y)) ms ms'.
 
 Lemma full_of src g M M1 tm n o t :
   (forall x v, src x = Some v -> mget M1 x = Some v) ->
